@@ -400,4 +400,142 @@ theorem interpolate_idem (pts : List Pt) (hne : pts ≠ []) :
     (interpolate_times_eq pts)
   rw [h1, h2, interpolate_times_eq]
 
+/-! ### the CSV file as text: titles, cells, lookup by title -/
+
+theorem trunc_intCast (z : Int) : trunc (z : Rat) = z := by
+  unfold trunc
+  simp
+
+theorem hasInfix_prefix (pat rest : List Char) : hasInfix pat (pat ++ rest) = true := by
+  cases pat with
+  | nil => cases rest <;> simp [hasInfix]
+  | cons c cs => simp [hasInfix, List.isPrefixOf]
+
+theorem cols_export (unit : Title) (hu : unit = uUm ∨ unit = uKbp ∨ unit = uPixel) (sw : Option Nat) (hasMd : Bool) :
+    let ts := readerKeys (exportTitles unit sw hasMd)
+    lastIdx ts tTimePx = some 1 ∧ lastIdx ts tCoordPx = some 2 ∧
+    lastIdx ts tMinDur = (if hasMd then some (5 + (if sw.isSome then 1 else 0)) else none) ∧
+    (ts.find? (hasInfix sCounts)).bind (lastIdx ts) = (if sw.isSome then some 5 else none) := by
+  rcases hu with rfl | rfl | rfl <;> cases sw <;> cases hasMd <;>
+    simp [exportTitles, readerKeys, lastIdx, lastIdxFrom, tIdx, tTimePx, tCoordPx, tTimeSec, tPosition, tPosPre,
+      tCounts, tCntPre, tCntPost, tMinDur, sCounts, uUm, uKbp, uPixel, hasInfix, List.isPrefixOf]
+
+def Row.strip (r : Row) : Row := ⟨r.idx, r.t, r.c, 0, 0, r.count, r.minDur⟩
+
+theorem mkTrack_strip (k : Kymo) (rs : List Row) : mkTrack k (rs.map Row.strip) = mkTrack k rs := by
+  unfold mkTrack
+  simp only [List.map_map]
+  rfl
+
+theorem readTxt_strip (rows : List Row) : readTxt (rows.map Row.strip) = (readTxt rows).map (·.map Row.strip) := by
+  unfold readTxt
+  rw [List.map_map, List.map_map]
+  have : (Row.idx ∘ Row.strip) = Row.idx := rfl
+  rw [this]
+  apply List.map_congr_left
+  intro i _
+  simp only [Function.comp]
+  rw [List.filter_map]
+  rfl
+
+/-- the importer reads neither the seconds nor the position column -/
+theorem importGroup_strip (k : Kymo) (rows : List Row) :
+    importGroup k (rows.map Row.strip) = importGroup k rows := by
+  unfold importGroup
+  by_cases h : rows = []
+  · subst h; rfl
+  · have h1 : rows.isEmpty = false := by cases rows <;> simp_all
+    have h2 : (rows.map Row.strip).isEmpty = false := by cases rows <;> simp_all
+    rw [h1, h2, readTxt_strip]
+    simp only [Bool.false_eq_true, if_false]
+    rw [List.mapM_map]
+    congr 1
+    funext rs
+    exact mkTrack_strip k rs
+
+theorem rowCells_length (r : Row) :
+    (rowCells r).length = 5 + (if r.count.isSome then 1 else 0) + (if r.minDur.isSome then 1 else 0) := by
+  unfold rowCells
+  cases r.count <;> cases r.minDur <;> simp
+
+theorem exportTitles_length (unit : Title) (sw : Option Nat) (hasMd : Bool) :
+    (exportTitles unit sw hasMd).length = 5 + (if sw.isSome then 1 else 0) + (if hasMd then 1 else 0) := by
+  unfold exportTitles
+  cases sw <;> cases hasMd <;> simp
+
+theorem readerKeys_length (ts : List Title) : (readerKeys ts).length = ts.length := by
+  cases ts <;> simp [readerKeys]
+
+/-- the cells the importer picks out of a written line are the entries of that line -/
+theorem pick_cells (r : Row) (sw : Option Nat) (hasMd : Bool) (hc : r.count.isSome = sw.isSome)
+    (hm : r.minDur.isSome = hasMd) :
+    (⟨(trunc (cell (rowCells r) 0)).toNat, trunc (cell (rowCells r) 1), cell (rowCells r) 2, 0, 0,
+      (if sw.isSome then some 5 else none).map (fun j => trunc (cell (rowCells r) j)),
+      (if hasMd then some (5 + (if sw.isSome then 1 else 0)) else none).map (fun j => cell (rowCells r) j)⟩ : Row)
+      = r.strip := by
+  cases r with
+  | mk idx t c sec pos count minDur =>
+    cases count <;> cases minDur <;> cases sw <;> cases hasMd <;>
+      simp_all [rowCells, cell, Row.strip, trunc_intCast] <;>
+      (unfold trunc; simp)
+
+theorem importFile_written (k : Kymo) (unit : Title) (hu : unit = uUm ∨ unit = uKbp ∨ unit = uPixel)
+    (sw : Option Nat) (hasMd : Bool) (rows : List Row)
+    (hrows : ∀ r ∈ rows, r.count.isSome = sw.isSome ∧ r.minDur.isSome = hasMd) :
+    importFile k ⟨some 4, exportTitles unit sw hasMd, rows.map rowCells⟩ = importGroup k rows := by
+  cases rows with
+  | nil => rfl
+  | cons r0 rest =>
+    have hlen : ∀ r ∈ r0 :: rest, (rowCells r).length = (exportTitles unit sw hasMd).length := by
+      intro r hr
+      rw [rowCells_length, exportTitles_length, (hrows r hr).1, (hrows r hr).2]
+    have hrag : ((r0 :: rest).map rowCells).any (fun r => r.length != (rowCells r0).length) = false := by
+      rw [List.any_eq_false]
+      intro x hx
+      obtain ⟨r, hr, rfl⟩ := List.mem_map.1 hx
+      rw [hlen r hr, hlen r0 (by simp)]
+      simp
+    obtain ⟨c1, c2, c3, c4⟩ := cols_export unit hu sw hasMd
+    have htake : (readerKeys (exportTitles unit sw hasMd)).take (rowCells r0).length
+        = readerKeys (exportTitles unit sw hasMd) := by
+      rw [hlen r0 (by simp), ← readerKeys_length]
+      exact List.take_length
+    unfold importFile
+    simp only [List.map_cons] at hrag ⊢
+    simp only [hrag, Bool.false_eq_true, if_false, htake, c1, c2]
+    have hv : ¬ ((some 4 : Option Nat) = some 3) := by decide
+    simp only [hv, if_false, c3, c4]
+    rw [← importGroup_strip k (r0 :: rest)]
+    congr 1
+    rw [List.map_cons, List.map_map]
+    congr 1
+    · exact pick_cells r0 sw hasMd (hrows r0 (by simp)).1 (hrows r0 (by simp)).2
+    · apply List.map_congr_left
+      intro r hr
+      exact pick_cells r sw hasMd (hrows r (List.mem_cons_of_mem _ hr)).1 (hrows r (List.mem_cons_of_mem _ hr)).2
+
+theorem exported_rows_shape (k : Kymo) (sample : Option (Int → Rat → Int)) (fmt : Rat → Rat) (g : List Track)
+    (rows : List Row) (h : exportRows k sample fmt g = .ok rows) :
+    ∀ r ∈ rows, r.count.isSome = sample.isSome ∧ r.minDur.isSome = g.all (·.minDur.isSome) := by
+  have hne : g ≠ [] := by
+    intro hg; subst hg; simp [exportRows] at h
+  rw [exportRows_eq k sample fmt g hne] at h
+  injection h with h
+  subst h
+  intro r hr
+  simp only [rowBlocksFrom, blockOf, List.mem_flatMap, List.mem_map] at hr
+  obtain ⟨p, hp, q, _, rfl⟩ := hr
+  have hm : p.1 ∈ g := by
+    have : p.1 ∈ (g.zipIdx).map Prod.fst := List.mem_map_of_mem hp
+    rwa [List.zipIdx_map_fst] at this
+  refine ⟨by cases sample <;> rfl, ?_⟩
+  simp only [rowOf, mdOf]
+  cases hall : g.all (·.minDur.isSome) with
+  | false => simp
+  | true =>
+    have := (List.all_eq_true.1 hall) p.1 hm
+    simp only [if_true, Option.isSome_map]
+    exact this
+
+
 end Verif.C17
